@@ -93,15 +93,17 @@ _DICT_METHODS = {"get", "setdefault", "pop", "items", "keys", "values", "update"
 _SET_METHODS = {"add", "discard", "remove", "union", "intersection", "difference", "copy", "update", "issubset", "issuperset", "pop", "clear",
                 "intersection_update", "difference_update", "symmetric_difference", "isdisjoint"}
 _STR_METHODS = {"split", "strip", "lstrip", "rstrip", "join", "startswith", "endswith", "format", "lower", "upper", "replace", "find", "rfind",
-                "index", "count", "isdigit", "isspace", "partition", "rpartition", "rsplit", "splitlines", "title", "zfill", "isalpha", "isalnum",
+                "index", "rindex", "count", "isdigit", "isspace", "partition", "rpartition", "rsplit", "splitlines", "title", "zfill", "isalpha", "isalnum",
                 "ljust", "rjust", "center", "encode"}
 _TUPLE_METHODS = {"index", "count"}
 
 
 class PyInterp:
     def __init__(self, leaf: Optional[Callable[[ast.AST, dict], object]] = None,
-                 lookup: Optional[Callable[[ast.Call], Optional[ast.AST]]] = None, max_steps: int = 200000):
+                 lookup: Optional[Callable[[ast.Call], Optional[ast.AST]]] = None, max_steps: int = 200000,
+                 classes: Optional[Dict[str, ast.ClassDef]] = None):
         self.leaf, self.lookup = leaf, lookup
+        self.classes = dict(classes or {})  # plain classes of the analysed module that may be instantiated (`_AltTree()`)
         self.steps, self.max_steps = 0, max_steps
         self.depth = 0
 
@@ -335,6 +337,17 @@ class PyInterp:
                         and not any(isinstance(d, ast.Name) and d.id == "staticmethod" for d in fn.decorator_list):
                     args = [env["self"]] + args
                 return self.call_function(fn, args, kwargs)
+        if isinstance(f, ast.Name) and f.id in self.classes and f.id not in env:
+            cls = self.classes[f.id]
+            obj = Obj()
+            obj.__dict__["cls"] = cls
+            init = next((st for st in cls.body if isinstance(st, ast.FunctionDef) and st.name == "__init__"), None)
+            args, kwargs = self._args(c, env)
+            if init is not None:
+                self.call_function(init, [obj] + args, kwargs)
+            elif args or kwargs:
+                raise NotEvaluable("constructor arguments without __init__")
+            return obj
         if isinstance(f, ast.Name):
             if f.id in env and callable(env[f.id]):
                 args, kwargs = self._args(c, env)
@@ -342,7 +355,7 @@ class PyInterp:
             b = self._builtin(f.id)
             if b is not None:
                 args, kwargs = self._args(c, env)
-                if any(not isinstance(a, _PLAIN + (Closure, type, type({}.items()), type({}.keys()), type({}.values()))) and not callable(a) for a in args):
+                if f.id != "isinstance" and any(not isinstance(a, _PLAIN + (Closure, type, type({}.items()), type({}.keys()), type({}.values()))) and not callable(a) for a in args):
                     raise NotEvaluable(f"{f.id}() of an opaque value")
                 try:
                     return b(*args, **kwargs)
@@ -368,6 +381,11 @@ class PyInterp:
                 if isinstance(out, (type({}.items()), type({}.keys()), type({}.values()))):
                     return list(out)
                 return out
+            if isinstance(base, Obj) and base.__dict__.get("cls") is not None and meth not in base.attrs:
+                fn = next((st for st in base.__dict__["cls"].body if isinstance(st, ast.FunctionDef) and st.name == meth), None)
+                if fn is not None:
+                    args, kwargs = self._args(c, env)
+                    return self.call_function(fn, [base] + args, kwargs)
             if isinstance(base, Obj) and meth in base.attrs and callable(base.attrs[meth]):
                 args, kwargs = self._args(c, env)
                 return base.attrs[meth](*args, **kwargs)
@@ -563,8 +581,8 @@ class PyInterp:
             if not self.eval(st.test, env):
                 raise Raised("AssertionError")
         elif isinstance(st, ast.Expr):
-            if isinstance(st.value, ast.Constant):
-                return
+            if isinstance(st.value, (ast.Constant, ast.JoinedStr)):
+                return  # (a docstring, also when written as an f-string)
             self._value(st.value, env)
         elif isinstance(st, ast.Delete):
             for t in st.targets:
